@@ -109,6 +109,7 @@ def case_group_independence(case):
         ref["datasets"][d["label"]]["weighted_residual"].size for d in spec["datasets"] if d["group"] == "default"
     ) + len(ref["additional_penalty"][0])
     vs = []
+    vacuous = []
     for which, pred in (("second", lambda l: ".m4." in l), ("default", lambda l: ".m1." in l or ".m2." in l)):
         x = np.array(x0, dtype=float)
         for i, l in enumerate(labels):
@@ -120,7 +121,9 @@ def case_group_independence(case):
         if not np.array_equal(moved[blk], base[blk]):
             vs.append(V("group-block-changed-by-other-groups-parameters", changed_group=which))
         if np.array_equal(moved[other], base[other]):
-            vs.append(V("harness-parameters-had-no-effect", changed_group=which))
+            vacuous.append(which)  # e.g. NNLS with every clp at zero: the group's own block does not depend on its rates
+    if vacuous and not vs:
+        return core.ood("group-block-insensitive-to-its-own-parameters")
     return core.ok(key=case["opts"], outcome=len(vs), violations=vs)
 
 
